@@ -142,6 +142,7 @@ Qed.
 Lemma kumount_wf ks t fl ks' : kumount ks t fl = KOk ks' -> wf_table (ks_tab ks) = true -> wf_table (ks_tab ks') = true.
 Proof.
   unfold kumount. intros H W. destruct (top_at _ _) as [k|]; [|discriminate].
+  destruct (hidden_at _ _); [discriminate|].
   destruct (existsb _ _); [discriminate|]. injection H as <-. cbn [ks_tab]. unfold remove_id.
   now apply forallb_filter.
 Qed.
